@@ -553,6 +553,10 @@ pub fn batch(engine: &dyn Engine, a: &BatchArgs) -> i32 {
 }
 
 fn load_known(prop: &str) -> Vec<(String, String)> {
+    // (triage aid: report recorded findings like any other violation)
+    if std::env::var("VERIF_IGNORE_KNOWN").is_ok() {
+        return Vec::new();
+    }
     let p = verif_dir().join("known_findings.json");
     let text = match fs::read_to_string(p) {
         Ok(t) => t,
